@@ -1460,6 +1460,14 @@ fn wake_send_waiters<T>(waiters: &mut LinkedList<SendWaitQueueEntry<T>>) {''',
      'expect': {'C02': ['C02.R1', 'C02.R2'], 'C01': ['C01.I3']}},
     {'name': 'composed-RF39-notified-requeue-without-wakeup', 'patch': 'selftest/composed/RF39-notified-requeue-without-wakeup.diff',
      'expect': {'C06': ['C06.R4']}},
+    {'name': 'composed-RF48-refill-takes-newest-sender', 'patch': 'selftest/composed/RF48-refill-takes-newest-sender.diff',
+     'expect': {'C09': ['C09.R3', 'C09.R2']}},
+    {'name': 'composed-RF46-park-forgets-waker', 'patch': 'selftest/composed/RF46-park-forgets-waker.diff',
+     'expect': {'C06': ['C06.R6']}},
+    {'name': 'composed-RF50-settle-clears-slot-when-pending', 'patch': 'selftest/composed/RF50-settle-clears-slot-when-pending.diff',
+     'expect': {'C17': ['C17.R1']}},
+    {'name': 'composed-RF45-grant-does-not-set-lock', 'patch': 'selftest/composed/RF45-grant-does-not-set-lock.diff',
+     'expect': {'C02': ['C02.R1', 'C02.R2']}},
     {'name': 'seed-first-poll-enqueues-under-second-lock', 'patch': 'seeded/C06-first-poll-enqueues-under-second-lock/patch.diff',
      'expect': {'C06': ['C06.W'], 'C05': ['C05.W']}},
 ]
@@ -1792,6 +1800,14 @@ impl<'a, MutexType, T> FusedFuture for ChannelReceiveFuture<'a, MutexType, T> {'
     {'name': 'benign-refactor-RF42-oneshots-5', 'props': ALLP + ['C16'], 'patch': 'benign/RF42/patch.diff'},
     {'name': 'benign-refactor-RF43-state-broadcast-futures-5', 'props': ALLP + ['C16'], 'patch': 'benign/RF43/patch.diff'},
     {'name': 'benign-refactor-RF44-containers-5', 'props': ALLP + ['C16'], 'patch': 'benign/RF44/patch.diff'},
+    {'name': 'benign-refactor-RF45-mutex-6', 'props': ALLP + ['C16'], 'patch': 'benign/RF45/patch.diff'},
+    {'name': 'benign-refactor-RF46-semaphore-6', 'props': ALLP + ['C16'], 'patch': 'benign/RF46/patch.diff'},
+    {'name': 'benign-refactor-RF47-event-timer-6', 'props': ALLP + ['C16'], 'patch': 'benign/RF47/patch.diff'},
+    {'name': 'benign-refactor-RF48-mpmc-6', 'props': ALLP + ['C16'], 'patch': 'benign/RF48/patch.diff'},
+    {'name': 'benign-refactor-RF49-oneshots-6', 'props': ALLP + ['C16'], 'patch': 'benign/RF49/patch.diff'},
+    {'name': 'benign-refactor-RF50-state-broadcast-futures-6', 'props': ALLP + ['C16'], 'patch': 'benign/RF50/patch.diff'},
+    {'name': 'benign-refactor-RF51-containers-6', 'props': ALLP + ['C16'], 'patch': 'benign/RF51/patch.diff'},
+    {'name': 'benign-refactor-RF52-mutex-sync-outcome-enum', 'props': ALLP + ['C16'], 'patch': 'benign/RF52/patch.diff'},
     {'name': 'benign-unrelated-additions', 'props': ALLP, 'edits': [
         {'file': 'src/sync/semaphore.rs',
          'old': '''    /// Returns the amount of permits that are available on the semaphore
